@@ -178,6 +178,10 @@ def run(model, col, tier):
             if (raises_body and t == f"not {rn9}.IsScalar()") or (raises_else and t == f"{rn9}.IsScalar()"):
                 guards["DIV needs a scalar right operand"] = True
             SHL9, SHR9 = f"_GetRowsColumns({ln9})", f"_GetRowsColumns({rn9})"
+            # a shape returned as a namedtuple: `.rows` / `.columns` of that result are its positions 0 / 1
+            for nt_fields in _namedtuples(model, TYPES).values():
+                for i_, fld_ in enumerate(nt_fields):
+                    tc = tc.replace(f"{SHL9}.{fld_}", f"{SHL9}[{i_}]").replace(f"{SHR9}.{fld_}", f"{SHR9}[{i_}]")
             if (raises_body and tc in (f"{SHL9}[1]!={SHR9}[0]", f"{SHR9}[0]!={SHL9}[1]")) or (raises_else and tc in (f"{SHL9}[1]=={SHR9}[0]", f"{SHR9}[0]=={SHL9}[1]")):
                 guards["MUL needs matching inner dimensions"] = True
             if (raises_body and tc in (f"{ln9}.GetKind()!={rn9}.GetKind()", f"{rn9}.GetKind()!={ln9}.GetKind()")) or (raises_else and tc in (f"{ln9}.GetKind()=={rn9}.GetKind()", f"{rn9}.GetKind()=={ln9}.GetKind()")):
@@ -215,10 +219,25 @@ def run(model, col, tier):
     col.floor("R09.6", "accepting paths of the component-wise tail", ntail, 2)
     grc = model.func(TYPES, "_GetRowsColumns")
     t = " ".join(unparse(grc).split())
+    for nt_name in _namedtuples(model, TYPES):
+        t = t.replace(f"{nt_name}(", "(")  # a shape wrapped in a namedtuple is the same pair
     t = t.replace("(", "").replace(")", "")
     pt9 = grc.args.args[0].arg
     col.check(f"return {pt9}.GetSize[0], 1" in t and "return 1, 1" in t and f"return {pt9}.GetSize" in t, "R09.5", f"{TYPES}::_GetRowsColumns", "matrix -> (rows, cols), vector -> (n, 1), scalar -> (1, 1)", "the shapes used by the MUL rule changed", TYPES, grc)
     check_builtin_names(model, col, "R09.7")
+
+
+def _namedtuples(model, rel):
+    """{class name: [field names]} of the namedtuple classes a module defines at top level"""
+    out = {}
+    for name, v in model.file(rel).assigns.items():
+        if isinstance(v, ast.Call) and (last_attr(v) or (v.func.id if isinstance(v.func, ast.Name) else "")) in ("namedtuple", "NamedTuple") and len(v.args) >= 2:
+            f = v.args[1]
+            if isinstance(f, ast.Constant) and isinstance(f.value, str):
+                out[name] = f.value.replace(",", " ").split()
+            elif isinstance(f, (ast.List, ast.Tuple)) and all(isinstance(e, ast.Constant) for e in f.elts):
+                out[name] = [e.value for e in f.elts]
+    return out
 
 
 def check_builtin_names(model, col, rule):
